@@ -408,6 +408,8 @@ func main() {
 	clonem := flag.Bool("clone", false, "C14: alias correspondence of CloneObject + mutate-after-store probes")
 	conc := flag.Bool("conc", false, "C08: concurrent workloads on one handle (build with -race)")
 	snake := flag.Bool("snake", false, "C18: print camelToSnake of every string over a small alphabet (hex in, hex out)")
+	snapchild := flag.String("snapchild", "", "internal: judge a copied database directory in this (child) process")
+	snaplower := flag.String("snaplower", "0", "internal: lower-case directory names in the copy")
 	namesm := flag.Bool("names", false, "C18: uuidExt / uuid test of uuidsFromDir on generated entry names, for the model (driver -names)")
 	descrm := flag.Bool("descr", false, "C16/C17: descriptors of run-time struct types, constraint walks and compatibility verdicts, for the model (driver -descr) + oracles")
 	tagsm := flag.Bool("tags", false, "C16: descriptors derived from struct tags in every option order + end-to-end probes")
@@ -416,6 +418,11 @@ func main() {
 	linm := flag.Bool("lin", false, "C08: small concurrent histories with invocation/response times, for the linearizability search against the extracted model")
 	pair := flag.Bool("pair", false, "C12: run every history under a pair of configurations and compare (model-free)")
 	flag.Parse()
+	if *snapchild != "" {
+		vshim.SetVirtual(false)
+		snapChild(*snapchild, *snaplower == "1")
+		return
+	}
 
 	var w *bufio.Writer
 	if *out == "" {
